@@ -85,14 +85,14 @@ def eval (blk : String) (p x : List Nat) : Option (List Nat × String) :=
   -- p = [aw,wb,rw,mode(0 logical,1 arithmetic=True,2 wire),arw]  x = [a,b,ar]
   | "ShiftRight" =>
     let arith := p3 = 1 ∨ (p3 = 2 ∧ x2 % 2 = 1)
-    if arith then
-      some ([shiftRightA p0 p2 x0 x1],
-        if sgn p0 x0 < 0 ∧ p0 + 2^p1 < p2 + x1 then "shr-arith-wide-output" else "")
+    -- (the class "shr-arith-wide-output" is gone: repaired in /repo f333ccb, theorem holds for every aw/wb/rw)
+    if arith then some ([shiftRightA p0 p2 x0 x1], "")
     else some ([shiftRightL p2 x0 x1], "")
   -- p = [aw,wb,rw]  x = [a,b]
   | "ShiftLeft" => some ([shiftLeft p2 x0 x1], "")
-  | "RotateLeft" => some ([rotateLeft p0 p2 x0 x1], if p2 < p0 then "rotate-narrow-output" else "")
-  | "RotateRight" => some ([rotateRight p0 p2 x0 x1], if p2 < p0 then "rotate-narrow-output" else "")
+  -- (the class "rotate-narrow-output", p2 < p0, is gone: repaired in /repo 6d96f2c, theorem holds for every rw)
+  | "RotateLeft" => some ([rotateLeft p0 p2 x0 x1], "")
+  | "RotateRight" => some ([rotateRight p0 p2 x0 x1], "")
   -- p = [aw,rw,n]  x = [a]
   | "ShiftLeftConstant" => some ([shiftLeft p1 x0 p2], "")
   | "ShiftRightConstant" => some ([shiftRightL p1 x0 p2], "")
